@@ -1756,8 +1756,11 @@ impl<'a> CompositionGraphEncoder<'a> {
         // imported; this can happen based on importing of shared dependencies
         if let ItemKind::Instance(id) = kind {
             if let Some(id) = &types[id].id {
-                if let Some(index) = state.current.instances.get(id) {
-                    return *index;
+                // An import under another name is a distinct import of the interface
+                if id == name && !state.renamed_instances.contains(id) {
+                    if let Some(index) = state.current.instances.get(id) {
+                        return *index;
+                    }
                 }
             }
         }
@@ -1799,6 +1802,16 @@ impl<'a> CompositionGraphEncoder<'a> {
             }
             ItemKind::Instance(id) => {
                 if let Some(id) = &types[id].id {
+                    // An import under another name is only used for aliasing the
+                    // interface's types until the interface is imported by its name
+                    if id == name {
+                        state.renamed_instances.remove(id);
+                    } else if state.current.instances.contains_key(id) {
+                        return index;
+                    } else {
+                        state.renamed_instances.insert(id.clone());
+                    }
+
                     log::debug!(
                         "interface `{id}` is available for aliasing as instance index {index}"
                     );
